@@ -30,6 +30,14 @@ Theorem interaction_atoms_exact : forall m k r, rank m k = Some r ->
 Proof. exact rank_spec. Qed.
 Print Assumptions interaction_atoms_exact.
 
+(* the key -> index table is injective and total on the atoms of the molecule: two different atoms are never written
+   under one index, so no interaction is attached to a different atom; every atom of the molecule has an index *)
+Theorem distinct_atoms_get_distinct_indices : forall m,
+  (forall k1 k2 r, rank m k1 = Some r -> rank m k2 = Some r -> k1 = k2) /\
+  (forall k, In k (map a_key (m_atoms m)) -> exists r, rank m k = Some r).
+Proof. intros m. split; [apply rank_injective|apply rank_total]. Qed.
+Print Assumptions distinct_atoms_get_distinct_indices.
+
 (* nothing dropped, duplicated or moved to another section: the (section, interaction)
    pairs written are a permutation of those in memory (impropers renamed dihedrals) *)
 Theorem interactions_multiset_preserved : forall m,
